@@ -464,6 +464,23 @@ func c13EndToEnd(r *hx.Run, rnd *rand.Rand, n int) {
 					}
 				}
 			}
+			if cacheable {
+				// the table has no column for the protocol version: an HTTP/1.0 client (what a front proxy
+				// speaks to its backends by default) asking for a coding gets what an HTTP/1.1 client got
+				for _, a := range []string{"gzip", "br"} {
+					raw := fmt.Sprintf("GET %s HTTP/1.0\r\nHost: c13.example\r\nAccept-Encoding: %s\r\n\r\n", ki.uri, a)
+					rr := hx.RawRequest(w.Addr, []byte(raw), "GET", false, 10*time.Second)
+					if rr.Err != nil || rr.Status != 200 || rr.Header.Get("X-Status") != "hit" {
+						continue
+					}
+					r.Add("e2e_http10_hits", 1)
+					ck := rr.Header.Get("X-Fetch") + "|" + a
+					if prev, seen := hitCE[ck]; seen && prev != rr.Header.Get("Content-Encoding") {
+						r.Violate("negotiation_depends_on_history", map[string]string{"aspect": "protocol_version"}, fmt.Sprintf("a hit on the same stored response with Accept-Encoding %q is answered %q over HTTP/1.1 and %q over HTTP/1.0", a, prev, rr.Header.Get("Content-Encoding")), nil, map[string]interface{}{"uri": ki.uri, "raw_len": ki.size, "content_type": ki.ct})
+						break
+					}
+				}
+			}
 			if sp.store && i%4 == 3 {
 				// revisit earlier keys: with 8 resident entries they come back from their persisted records
 				for n := 0; n < 6; n++ {
@@ -484,7 +501,7 @@ func c13EndToEnd(r *hx.Run, rnd *rand.Rand, n int) {
 }
 
 func c13(r *hx.Run) {
-	r.Rule = "exhaustive table at the Fill level: accept (14 values incl. tokens containing 'gzip') x stored subset of raw/gzip/br (7) x raw size {min-1,min,min+1,min+4000} x min {1024,100} x filter {default,custom} x 6 content types x {direct, after Cacheable()}, N random bodies per cell, against the table of the statement/docs (where raw and visible lengths straddle the threshold both outcomes are accepted); then end-to-end through servers with default/configured thresholds and filters (two of them with an LRU of 8 entries over a store, earlier keys revisited after eviction so that they are served from their reloaded records; two that received their threshold and filter - set, changed or removed - through a reload of the running server; upstreams that answer gzip or br encoded themselves; lifetimes from 1 s to a day; hits on one stored version with one Accept-Encoding must always get the same encoding): text, repetitive and incompressible bodies, 4 requests per key with random Accept-Encoding, compressor call counters around every hit, stored variants compared with the best-compression profile's output. Non-trivial/distinct = table cell / e2e key class."
+	r.Rule = "exhaustive table at the Fill level: accept (14 values incl. tokens containing 'gzip') x stored subset of raw/gzip/br (7) x raw size {min-1,min,min+1,min+4000} x min {1024,100} x filter {default,custom} x 6 content types x {direct, after Cacheable()}, N random bodies per cell, against the table of the statement/docs (where raw and visible lengths straddle the threshold both outcomes are accepted); then end-to-end through servers with default/configured thresholds and filters (two of them with an LRU of 8 entries over a store, earlier keys revisited after eviction so that they are served from their reloaded records; two that received their threshold and filter - set, changed or removed - through a reload of the running server; upstreams that answer gzip or br encoded themselves; lifetimes from 1 s to a day; hits on one stored version with one Accept-Encoding must always get the same encoding, over HTTP/1.1 and over HTTP/1.0): text, repetitive and incompressible bodies, 4 requests per key with random Accept-Encoding, compressor call counters around every hit, stored variants compared with the best-compression profile's output. Non-trivial/distinct = table cell / e2e key class."
 	r.Assume = []string{"Accept-Encoding is a plain list of codings (no q-values)", "gzip/brotli encoders are deterministic (same level => same bytes)"}
 	rnd := rand.New(rand.NewSource(r.Seed))
 	c13Table(r, rnd, r.Pick(1, 20))
